@@ -27,12 +27,12 @@ def entry(c, f, allocs, upd="", exp="f1", name="n1", meta=None, mode="rec"):
             "orig": ["o1"], "ua": [], "upd": upd, "ref": ""}
 
 
-def world(n, followers=(), norepin=False, bad=(), nonnum=()):
+def world(n, followers=(), norepin=False, bad=(), nonnum=(), getfail=()):
     vals = ["v0", "v1", "v2", "v1", "v0", "v2", "v0", "v1"]
     peers = ["p%d" % i for i in range(1, n + 1)]
     return {"peers": peers, "followers": list(followers), "norepin": norepin, "strat": "asc",
             "ms": dict((p, "bad" if p in bad else ("nonnum" if p in nonnum else vals[i])) for i, p in enumerate(peers)),
-            "blocks": BLOCKS}
+            "blocks": BLOCKS, "getfail": list(getfail)}
 
 
 def directed():
@@ -55,6 +55,22 @@ def directed():
                   entry("c4", (1, 2), ["p1", "p3"])]
             ep = {"kind": kind, "failed": "p1", "at": "p2" if kind == "remove" else ""}
             out.append({"src": "directed", "w": world(n, bad=("p1",) if kind == "fail" else (), nonnum=nn), "ep": ep, "ps0": ps})
+    # State.Get of a pin fails (read error, not "not found") while its holder fails / is removed: the pin stays exactly
+    # as it was, whether it still meets its minimum (c2) or not (c1, c3); the others are handled as usual
+    for n in (3, 5):
+        for kind in ("fail", "remove"):
+            for gf in (["c2"], ["c1"], ["c3", "c2"]):
+                ps = [entry("c1", (1, 1), ["p1"]), entry("c2", (1, 2), ["p1", "p3"]), entry("c3", (2, 2), ["p1", "p2"], exp="none"),
+                      entry("c4", (1, 2), ["p1"], upd="c2")]
+                ep = {"kind": kind, "failed": "p1", "at": "p2" if kind == "remove" else ""}
+                out.append({"src": "directed", "w": world(n, bad=("p1",) if kind == "fail" else (), getfail=gf), "ep": ep, "ps0": ps})
+    # two removals in a row on rigs with the REAL pubsubmon monitor: the first removed peer has the best metric, so
+    # anything that still offers it as a candidate re-homes the second peer's pins onto it
+    for n in (3, 4):
+        ps = [entry("c1", (1, 1), ["p2"]), entry("c2", (1, 2), ["p2", "p1"]), entry("c3", (2, 2), ["p1", "p2"], exp="none"),
+              entry("c4", (1, 1), ["p3"])]
+        out.append({"src": "directed", "w": world(n), "ep": {"kind": "remove2", "failed": "p1", "failed2": "p2", "at": "p3"}, "ps0": ps})
+        out.append({"src": "directed", "w": world(n), "ep": {"kind": "remove2", "failed": "p2", "failed2": "p1", "at": "p3"}, "ps0": ps})
     # repinning disabled / follower closest / non-ping alert: nothing may change
     ps = [entry("c1", (1, 1), ["p1"]), entry("c2", (2, 2), ["p1", "p2"])]
     out.append({"src": "directed", "w": world(3, norepin=True, bad=("p1",)), "ep": {"kind": "fail", "failed": "p1", "at": ""}, "ps0": ps})
@@ -79,6 +95,7 @@ def witness_episode(out):
     st = tla.parse_state(ms[-1].group(2))
     w = st["w"]
     w.pop("rank", None)
+    w.setdefault("getfail", [])
     return {"src": "witness", "w": w, "ep": st["ep"], "ps0": st["ps0"]}
 
 
@@ -188,7 +205,7 @@ def validate(ctx, trace, eps):
     first_drift = None
     nbad = 0
     ctx.extra["events_checked_by_tlc"] = sum(len(x["events"]) for x in recs)
-    ctx.extra["episodes_by_kind"] = dict((k, sum(1 for x in recs if x["ep"]["kind"] == k)) for k in ("fail", "remove", "sync", "noise"))
+    ctx.extra["episodes_by_kind"] = dict((k, sum(1 for x in recs if x["ep"]["kind"] == k)) for k in ("fail", "remove", "remove2", "sync", "noise"))
     ctx.extra["max_members"] = max(len(x["w"]["peers"]) for x in recs)
     ctx.extra["rehomed_pins"] = sum(1 for x in recs for a in x["acts"] if a["kind"] == "pin")
     for v, rec in zip(vs, recs):
